@@ -336,6 +336,30 @@ def main():
             else:
                 h.violation("image:bounds", msg, input=inp, observed=[float(v) for v in bounds])
 
+        # a SECOND image with the very same WCS keywords but a larger pixel array (a cutout tiled before its full frame, in one
+        # process): its bounds are its own, not the first one's
+        if ii % 3 == 1 and max(nx, ny) <= 64:
+            nx2, ny2 = 2 * nx + 3, 2 * ny + 1
+            ws2 = samplers.WcsSampler(np.zeros((ny2, nx2), dtype=np.float32), w)
+            with warnings.catch_warnings():
+                warnings.simplefilter("ignore")
+                try:
+                    b2 = ws2._image_bounds()
+                except Exception as e:  # noqa
+                    b2 = None
+                    h.violation("image:raise", f"{desc}, then the same WCS with {nx2}x{ny2} px: _image_bounds raised {type(e).__name__}: {e}", input={**inp, "second_shape": [nx2, ny2]})
+            if b2 is not None:
+                gx2, gy2 = np.meshgrid(np.linspace(0.5, nx2 + 0.5, 2 * nx2 + 1), np.linspace(0.5, ny2 + 0.5, 2 * ny2 + 1))
+                wl2 = w.wcs_pix2world(np.stack([gx2.ravel(), gy2.ravel()], axis=1), 1)
+                lat2 = np.radians(wl2[:, 1])
+                sh2 = float(np.max(np.maximum(b2[2] - lat2, lat2 - b2[3]))) / px_rad
+                h.case(("image-pair", nx, ny, nx2, ny2, round(ra, 6), round(dec, 6), round(rot, 3)))
+                h.count("image", "same-wcs-larger-array")
+                if sh2 >= 0.1:
+                    h.violation("image:bounds:second", f"{desc}; a second sampler with the same WCS and {nx2}x{ny2} px reports latitude bounds [{float(b2[2])!r}, {float(b2[3])!r}] "
+                                f"({'the first image\'s' if (float(b2[2]), float(b2[3])) == (float(bounds[2]), float(bounds[3])) else 'not its own'}), {sh2:.1f} px short of its own pixel array",
+                                input={**inp, "second_shape": [nx2, ny2]}, observed=[float(v) for v in b2])
+
         def member(lo, la, w=w, nx=nx, ny=ny):
             px = w.wcs_world2pix(np.stack([np.degrees(lo).ravel(), np.degrees(la).ravel()], axis=1), 1)
             okp = (px[:, 0] >= 0.5) & (px[:, 0] <= nx + 0.5) & (px[:, 1] >= 0.5) & (px[:, 1] <= ny + 0.5)
@@ -466,6 +490,57 @@ def main():
             h.case(("e2e-image", nx, ny, ra, dec, round(rot, 3)))
             shutil.rmtree(base_f, ignore_errors=True)
             shutil.rmtree(base_a, ignore_errors=True)
+        # the FITS-to-TOAST workflow over SEVERAL images: `tile_fits(..., TOAST)` samples each image through its own footprint
+        # filter; the base layer equals sampling every tile with every image, without any filter — also when one multi-extension
+        # file is named twice to tile two of its HDUs
+        try:
+            import toasty
+            from astropy.io import fits as afits
+            for ci_ in range(2 if h.deep else 1):
+                basem = os.path.join(root, f"multi{ci_}")
+                os.makedirs(basem)
+                hd_list = [afits.PrimaryHDU()]
+                wlist = []
+                for j_, (ra_, dec_) in enumerate(rng.sample([(60.0, 35.0), (250.0, -40.0), (150.0, 5.0), (330.0, 60.0)], 2)):
+                    w_ = WCS(naxis=2)
+                    w_.wcs.ctype = ["RA---TAN", "DEC--TAN"]
+                    w_.wcs.crval = [ra_, dec_]
+                    w_.wcs.crpix = [8.5, 8.5]
+                    w_.wcs.cdelt = [-1.5, 1.5]
+                    dat_ = (np.arange(256, dtype=np.float32).reshape((16, 16)) + 1000.0 * (j_ + 1))
+                    hd_list.append(afits.ImageHDU(dat_, header=w_.to_header()))
+                    wlist.append((dat_, w_))
+                fpm = os.path.join(basem, "two.fits")
+                afits.HDUList(hd_list).writeto(fpm, overwrite=True)
+                depth_m = 3
+                with warnings.catch_warnings():
+                    warnings.simplefilter("ignore")
+                    odir_m, _b = toasty.tile_fits([fpm, fpm], out_dir=os.path.join(basem, "out"), hdu_index=[1, 2], tiling_method=toasty.TilingMethod.TOAST, parallel=1, start=depth_m)
+                    pio_r = PyramidIO(os.path.join(basem, "ref"), default_format="fits")
+                    for (dat_, w_) in wlist:
+                        toast.sample_layer_filtered(pio_r, (lambda t: True), samplers.WcsSampler(dat_, w_).sampler(), depth_m, parallel=1)
+                pio_m = PyramidIO(odir_m, default_format="fits")
+                badm = None
+                for y in range(2 ** depth_m):
+                    for x in range(2 ** depth_m):
+                        a_ = pio_r.read_image(Pos(depth_m, x, y))
+                        b_ = pio_m.read_image(Pos(depth_m, x, y))
+                        a_has = a_ is not None and bool(np.any(~np.isnan(a_.asarray())))
+                        b_has = b_ is not None and bool(np.any(~np.isnan(b_.asarray())))
+                        if a_has != b_has or (a_has and not np.array_equal(a_.asarray(), b_.asarray(), equal_nan=True)):
+                            which = sorted(set(int(v // 1000) for v in a_.asarray()[~np.isnan(a_.asarray())])) if a_has else []
+                            badm = f"tile {(depth_m, x, y)}: the workflow {'left out' if not b_has else 'differs from'} what unfiltered sampling fills there (data of HDU(s) {which})"
+                            break
+                    if badm:
+                        break
+                h.case(("e2e-tile_fits-toast", ci_))
+                h.count("filter", "tile_fits-multi")
+                if badm:
+                    h.violation("e2e:tile_fits", f"tile_fits([f, f], hdu_index=[1, 2], TOAST, start={depth_m}) over two 16x16 images at {[tuple(w_.wcs.crval) for (_d, w_) in wlist]}: {badm}",
+                                input={"crvals": [list(map(float, w_.wcs.crval)) for (_d, w_) in wlist]}, observed=badm)
+        except Exception as e:
+            import traceback
+            h.violation("e2e:tile_fits:crash", f"the multi-image tile_fits workflow raised {type(e).__name__}: {e}", input="tile_fits", observed=traceback.format_exc()[-600:])
     finally:
         shutil.rmtree(root, ignore_errors=True)
     return h.finish()
